@@ -108,7 +108,7 @@ func c17One(c *core.Ctx, cs srcCase) {
 			// appearing, vanishing or losing the newline a close tag swallows); anything else that differs is not part of it
 			skip := map[string]bool{"StmtNop": true, "StmtInlineHtml": true}
 			// (a shebang line followed by inline HTML is the other recorded symptom: the HTML gets an open tag and becomes code)
-			if strings.Contains(mixed, "leaves PHP mode") && !bytes.HasPrefix(cs.Src, []byte("#!")) && astx.StructFPSkip(r2.Root, skip) != astx.StructFPSkip(res.Root, skip) {
+			if strings.Contains(mixed, "leaves PHP mode") && !bytes.HasPrefix(cs.Src, []byte("#!")) && astx.StructFPSkip(r2.Root, skip) != astx.StructFPSkip(ref.Root, skip) {
 				blame = "a program that leaves PHP mode differs in more than empty statements and inline HTML: " + firstKindDiff(ref.Root, r2.Root)
 			}
 		}
